@@ -22,8 +22,14 @@ E593 = 'beartype/_check/error/_pep/errpep593.py'
 ECON = 'beartype/_check/error/_pep/pep484585/errpep484585container.py'
 EMAP = 'beartype/_check/error/_pep/pep484585/errpep484585mapping.py'
 
+IOP = 'beartype/_data/cls/pep/pep544/io/dataclspep544io.py'
+
 # name: (files, edit, expectations, why)
 M = {
+    'textio-hook-reads-the-stream': ([IOP], sub(IOP, "'b' not in obj.mode", "not isinstance(obj.read(0), bytes)"),
+        {'C10': 'C10.R6'}, 'checking a stream against TextIO calls its read() (seeded C10-12)'),
+    'binaryio-hook-mode-via-getattr': ([IOP], sub(IOP, "'b' in obj.mode", "'b' in getattr(obj, 'mode')"),
+        {'C10': None}, 'the same attribute read, spelled with getattr'),
     'container-drops-empty-guard': ([D85], sub(D85,
         "(not len({pith_curr_var_name}) or {hint_child_placeholder})", "({hint_child_placeholder})"),
         {'C01': 'C01.R3'}, 'an empty list[int] raises ZeroDivisionError / StopIteration instead of being accepted'),
